@@ -2877,9 +2877,16 @@ bool BW_MidiSequencer::parseSMF(FileAndMemReader &fr)
         }
         trackLength = (size_t)readBEint(headerBuf + 4, 4);
 
+        // The declared length can't be bigger than the rest of the file
+        if(trackLength > fr.fileSize() - fr.tell())
+        {
+            m_errorString = fr.fileName() + ": Unexpected file ending while getting raw track data!\n";
+            return false;
+        }
+
         // Read track data
         rawTrackData[tk].resize(trackLength);
-        fsize = fr.read(&rawTrackData[tk][0], 1, trackLength);
+        fsize = trackLength > 0 ? fr.read(&rawTrackData[tk][0], 1, trackLength) : 0;
         if(fsize < trackLength)
         {
             m_errorString = fr.fileName() + ": Unexpected file ending while getting raw track data!\n";
